@@ -78,6 +78,7 @@ def plan(quick):
         p.append(("num-warm-rem2", ["Cfirstun"], NUM, "warm", "REM2", {}))
         p.append(("num-disk-clear-rem2", ["P3", "Cfirstun"], NUM, "fresh", "REM2", {"disk": True, "clear": True}))
         p.append(("num-disk-clear-copy", ["Cstar", "Cunord"], NUM, "fresh", "COPY2", {"disk": True, "clear": True}))
+        p.append(("all-disk-clear-copy", ["P3"], ALL, "fresh", "COPY2", {"disk": True, "clear": True}))
     else:
         p.append(("num-fresh-full2", GEOMS_6, NUM, "fresh", "FULL2", {}))
         p.append(("all-fresh-full+lite", ["P3", "Cfirstun", "S2first"], ALL, "fresh", "FULL+LITE", {}))
